@@ -77,6 +77,59 @@ def _dropped_binding_class(codemod, before, after1):
     return None
 
 
+def _syntax_error_line(text):
+    """line of the SyntaxError CPython reports for `text` (None if it compiles)"""
+    import warnings
+    try:
+        with warnings.catch_warnings():
+            warnings.simplefilter("ignore")
+            compile(text, "<after>", "exec", dont_inherit=True)
+    except SyntaxError as e:
+        return e.lineno or 0
+    except (ValueError, RecursionError):
+        return 0
+    return None
+
+
+def _map_line(before, after, line):
+    """the (1-based) line range of `after` that corresponds to line `line` of `before` (by a line diff)"""
+    import difflib
+    a, b = before.splitlines(), after.splitlines()
+    for tag, i1, i2, j1, j2 in difflib.SequenceMatcher(None, a, b, autojunk=False).get_opcodes():
+        if i1 <= line - 1 < i2:
+            if tag == "equal":
+                return (j1 + (line - 1 - i1) + 1, j1 + (line - 1 - i1) + 1)
+            return (j1 + 1, max(j2, j1 + 1))
+    return (len(b), len(b))
+
+
+def _error_at(before, after, lines, slack=1):
+    """does the syntax error of `after` sit on (within `slack` lines of) the image of one of the given lines of `before`?
+    A known C01 class only absorbs a failure that is WHERE the class says it is."""
+    err = _syntax_error_line(after or "")
+    if err is None:
+        return False
+    for ln in lines:
+        lo, hi = _map_line(before, after, ln)
+        if lo - slack <= err <= hi + slack:
+            return True
+    return False
+
+
+def _second_run_confined(after1, after2, spans):
+    """are all lines that the second run changed inside one of the given line spans of after1?"""
+    import difflib
+    a, b = after1.splitlines(), (after2 or "").splitlines()
+    for tag, i1, i2, j1, j2 in difflib.SequenceMatcher(None, a, b, autojunk=False).get_opcodes():
+        if tag == "equal":
+            continue
+        lo, hi = i1 + 1, max(i2, i1 + 1)
+        if not any(s <= lo and hi <= e for s, e in spans):
+            return False
+    return True
+
+
+
 def classify(prop, codemod, before, after1, after2):
     """Finding classes (narrow, decidable on the input); text that cannot even be analysed (e.g. surrogate-escaped bytes of a
     legacy-encoded file) belongs to no known class."""
@@ -106,11 +159,15 @@ def _classify(prop, codemod, before, after1, after2):
         import io, tokenize
         from harness.c01_strlit import dq_safe
         try:
+            bad_lines = []
             for t in tokenize.generate_tokens(io.StringIO(before).readline):
                 if t.type == tokenize.STRING and t.string[0] in "'\"":
                     q = t.string[:3] if t.string[:3] in ("'''", '"""') else t.string[:1]
                     if not dq_safe(t.string[len(q):-len(q)]):
-                        return "kf_lazy_logging_quote"
+                        bad_lines += list(range(t.start[0], t.end[0] + 1))
+            # ... and the output breaks exactly there (the re-quoted literal), not somewhere else in the file
+            if bad_lines and _error_at(before, after1, bad_lines, slack=1):
+                return "kf_lazy_logging_quote"
         except Exception:
             pass
     if prop == "C01" and name == "remove-debug-breakpoint":
@@ -124,13 +181,13 @@ def _classify(prop, codemod, before, after1, after2):
                     if isinstance(blk, list) and len(blk) == 1 and isinstance(blk[0], ast.Expr) and isinstance(blk[0].value, ast.Call) \
                             and not isinstance(n, ast.Module):
                         st = blk[0]
-                        if "#" in src_lines[st.end_lineno - 1][st.end_col_offset:]:
+                        if "#" in src_lines[st.end_lineno - 1][st.end_col_offset:] and _error_at(before, after1, [st.lineno, st.end_lineno], slack=2):
                             return "kf_remove_breakpoint_sole_stmt_trailing_comment"
                 for h in getattr(n, "handlers", []) or []:
                     blk = h.body
                     if len(blk) == 1 and isinstance(blk[0], ast.Expr) and isinstance(blk[0].value, ast.Call):
                         st = blk[0]
-                        if "#" in src_lines[st.end_lineno - 1][st.end_col_offset:]:
+                        if "#" in src_lines[st.end_lineno - 1][st.end_col_offset:] and _error_at(before, after1, [st.lineno, st.end_lineno], slack=2):
                             return "kf_remove_breakpoint_sole_stmt_trailing_comment"
         except SyntaxError:
             pass
@@ -140,7 +197,7 @@ def _classify(prop, codemod, before, after1, after2):
             for n in ast.walk(ast.parse(before)):
                 if isinstance(n, ast.Assign) and isinstance(n.value, ast.Tuple):
                     seg = ast.get_source_segment(before, n.value) or ""
-                    if not seg.startswith("("):
+                    if not seg.startswith("(") and _error_at(before, after1, [n.lineno, n.end_lineno, n.end_lineno + 1], slack=2):
                         return "kf_walrus_tuple_rhs"
         except SyntaxError:
             pass
@@ -150,7 +207,8 @@ def _classify(prop, codemod, before, after1, after2):
             for n in ast.walk(ast.parse(before)):
                 if isinstance(n, ast.BinOp) and isinstance(n.op, ast.Add):
                     for side, other in ((n.right, n.left), (n.left, n.right)):
-                        if isinstance(side, ast.Constant) and side.value == "" and other.end_lineno != other.lineno:
+                        if isinstance(side, ast.Constant) and side.value == "" and other.end_lineno != other.lineno \
+                                and _error_at(before, after1, list(range(n.lineno, n.end_lineno + 1)), slack=2):
                             return "kf_sql_cleanup_multiline_concat"
         except SyntaxError:
             pass
@@ -194,15 +252,30 @@ def _classify(prop, codemod, before, after1, after2):
         except SyntaxError:
             return f"kf_{prop}_{name}"
         # a call nested inside an argument of another call to the same callee expression
+        nested_in_input = False
         for n in ast.walk(tree):
             if isinstance(n, ast.Call):
                 outer = ast.dump(n.func)
                 for a in list(n.args) + [k.value for k in n.keywords]:
                     for m in ast.walk(a):
                         if isinstance(m, ast.Call) and ast.dump(m.func) == outer:
-                            # per codemod: the defect is known for the transformers that rebuild the outer call from
-                            # original_node; the same behaviour appearing in another codemod is a new violation
-                            return "kf_nested_selected_calls:" + name
+                            nested_in_input = True
+        if nested_in_input:
+            # per codemod: the defect is known for the transformers that rebuild the outer call from original_node; the
+            # same behaviour appearing in another codemod is a new violation.  And by OBSERVATION: what the second run
+            # changes must lie inside such an outer call of the first run's output (the inner fix that was discarded),
+            # otherwise the non-idempotence is something else that merely shares the file.
+            spans = []
+            try:
+                for n in ast.walk(ast.parse(after1)):
+                    if isinstance(n, ast.Call):
+                        inner_calls = [m for a in list(n.args) + [k.value for k in n.keywords] for m in ast.walk(a) if isinstance(m, ast.Call)]
+                        if inner_calls:
+                            spans.append((n.lineno, n.end_lineno))
+            except SyntaxError:
+                spans = []
+            if spans and _second_run_confined(after1, after2, spans):
+                return "kf_nested_selected_calls:" + name
     return f"unlisted_{prop}_{name}"
 
 
